@@ -71,6 +71,34 @@ def binary (fuel : Nat) (op : Ext → Ext → Ext) (default : Ext) (t u : PT) (n
     { physical := List.zipWith op (layout t x.paxes1 x.es) (layout u x.paxes2 x.fs),
       paxes := x.gs, vaxes := x.lggs, default := default }
 
+/-- `t.commutative(u, identity, default, operate_)`: the sparsity shortcut of add, mul, maximum, logaddexp, logical_and/or.
+When one operand's default is the identity of the operation, only the positions that operand BACKS are combined; the
+other positions keep the other operand's laid-out element (`x op identity = x`).  Which operand plays which role is
+decided as in the library (defaults, broadcast axes, number of physical elements); in the last branch the operation is
+applied with the operands exchanged (`operate_(up, tp)`). -/
+def commutative (fuel : Nat) (op : Ext → Ext → Ext) (identity default : Ext) (t u : PT) (next : Nat) : PT :=
+  let x := expansion fuel t u next
+  let tLay := layout t x.paxes1 x.es
+  let uLay := layout u x.paxes2 x.fs
+  let newT := x.paxes1.take (x.paxes1.length - t.paxes.length)
+  let newU := x.paxes2.take (x.paxes2.length - u.paxes.length)
+  -- the positions (flat, over the fresh axes) an operand backs: the images of its laid-out pattern
+  let shape := x.gs.map (·.2)
+  let backs := fun (phys : List Ext) (paxes : List (Nat × Nat)) (es : List Axis) =>
+    ((PT.mk phys paxes es (Ext.fin 0)).cells.map (fun c => Ax.flat shape c.1))
+  let cond := !(Ext.eqIEEE t.default identity) || x.paxes1.length != t.paxes.length ||
+              (x.paxes2.length == u.paxes.length && decide (t.physical.length ≥ u.physical.length))
+  let physical :=
+    if cond then
+      if Ext.eqIEEE u.default identity then
+        let bu := backs (expandFront u.physical newU) x.paxes2 x.fs
+        tLay.zipIdx.map (fun (p : Ext × Nat) => if bu.contains p.2 then op p.1 (uLay[p.2]?.getD u.default) else p.1)
+      else List.zipWith op tLay uLay
+    else
+      let bt := backs (expandFront t.physical newT) x.paxes1 x.es
+      uLay.zipIdx.map (fun (p : Ext × Nat) => if bt.contains p.2 then op p.1 (tLay[p.2]?.getD t.default) else p.1)
+  normalize { physical := physical, paxes := x.gs, vaxes := x.lggs, default := default }
+
 /-! ### protocol -/
 
 def boolExt (b : Bool) : Ext := if b then Ext.fin 1 else Ext.fin 0
@@ -102,6 +130,15 @@ def handle : List String → Option (Except String String)
         if t.vaxes.length != u.vaxes.length then throw "ndim"
         let r := binary FUEL op (op t.default u.default) t u next
         pure (showPT r ++ " " ++ showBool r.wf)
+  | "C06.commutative" :: opn :: rest => some do
+      let (t, u, ident, next) ← Tok.run (do let t ← parsePT; let u ← parsePT; let i ← Tok.ext; let n ← Tok.nat; pure (t, u, i, n)) rest
+      match opOf opn with
+      | none => throw s!"bad op {opn}"
+      | some op =>
+        if t.vaxes.length != u.vaxes.length then throw "ndim"
+        let r := commutative FUEL op ident (op t.default u.default) t u next
+        let r2 := binary FUEL op (op t.default u.default) t u next
+        pure (showPT r ++ " " ++ showBool r.wf ++ " " ++ showBool (showPT r == showPT r2))
   | _ => none
 
 end Fggs.Bn
